@@ -12,6 +12,7 @@ import (
 	"path/filepath"
 	"sort"
 	"strings"
+	"sync"
 	"testing"
 
 	"pgregory.net/rapid"
@@ -765,5 +766,53 @@ func FuzzC17(f *testing.F) {
 		if res.ID() != did {
 			t.Fatalf("C17 fuzz: resolved id %q for %q", res.ID(), did)
 		}
+	})
+}
+
+// TestC19_Concurrent: the entry points share one parser, applier, handler and VDR (entry registry). Valid and corrupted
+// inputs handed over from several goroutines at once are answered; the process survives (an unsynchronised map or a
+// shared buffer inside a component ends in "fatal error: concurrent map writes" or an index panic, which no recover() stops).
+func TestC19_Concurrent(t *testing.T) {
+	st := statsFor("C19")
+	entrySetup()
+	check(t, "C19", 20, func(t *rapid.T) {
+		p := wideProtocol()
+		n := rapid.IntRange(2, 8).Draw(t, "goroutines")
+		rounds := rapid.IntRange(5, 30).Draw(t, "rounds")
+		var inputs [][]byte
+		for i := 0; i < n; i++ {
+			typ := rapid.SampledFrom([]string{"update", "recover", "deactivate", "create"}).Draw(t, "opType")
+			ctx := &opGenCtx{P: p, Doc: map[string]interface{}{}, Suffix: entrySuffix, Keys: entryKeys(), St: st, Classes: []string{"valid"}, Time: 5, NoIetf: true}
+			c := genOpCase(t, typ, ctx)
+			raw := c.Build.bytes()
+			if rapid.IntRange(0, 3).Draw(t, "corrupt") == 0 {
+				v, _ := corruptValue(t, c.Build.Req)
+				raw = []byte(refJCS(v))
+			}
+			inputs = append(inputs, raw)
+		}
+		journal("ParseRequest", inputs[0])
+		errs := make(chan string, n)
+		var wg sync.WaitGroup
+		for i := range inputs {
+			wg.Add(1)
+			go func(in []byte) {
+				defer wg.Done()
+				for r := 0; r < rounds; r++ {
+					for _, entry := range []string{"ParseRequest", "Bytes"} {
+						if err := callNoPanic(func() { entryPoints()[entry](in) }); err != nil {
+							errs <- fmt.Sprintf("entry %s panicked: %v\n input %s", entry, err, clip(string(in), 600))
+							return
+						}
+					}
+				}
+			}(inputs[i])
+		}
+		awaitWorkers(t, &wg, "C19 concurrent entry points")
+		close(errs)
+		for e := range errs {
+			t.Fatalf("C19 (with %d goroutines at the same time) %s", n, e)
+		}
+		st.Case(n >= 3, fmt.Sprint("concurrent|", n, rounds, string(inputs[0])), "target-concurrent")
 	})
 }
